@@ -42,8 +42,8 @@ Wins   == {"none", "lo", "hi", "both", "inv", "neg"}
 Seeds  == {"none", "0", "7", "max", "neg", "nan"}
 \* activities: 2.5, 0, -1
 Acts   == {"none", "pos", "zero", "neg"}
-\* MDL option groups: "e-" = particle e-, rank 0, phi 30, theta 60, aperture 20 ; "all" = particle all only ;
-\* "gamma" = particle gamma, rank 1, aperture 35 ; badlabel = particle muon ; badrank = rank -2 ;
+\* MDL option groups: "e-" = particle e-, rank 0, phi 30.5, theta 60.25, aperture 20.5 (real-valued options) ; "all" = particle all only ;
+\* "gamma" = particle gamma, rank 1, aperture 35.5 ; badlabel = particle muon ; badrank = rank -2 ;
 \* negap = aperture -5 ; bigap = aperture 400 ; nolabel = rank 0 + aperture 20 without a particle option
 Mdls   == {"none", "e-", "all", "gamma", "badlabel", "badrank", "negap", "bigap", "nolabel"}
 \* unknown = an option the program does not have ; dangling = an option that needs a value is the last argument ;
